@@ -936,7 +936,19 @@ def extract_dependencies(function):
 
 
 # Two callers at the module top level to support pickling.
+def _routed(changed, routed=None):
+    """
+    The parameters a dependency path passes through (travelling inside
+    `changed`, under a key that is no parameter name: a pickle of the
+    caller stays readable by a version that knows nothing of it).
+    """
+    if routed is None and isinstance(changed, dict):
+        routed = changed.get('.routed')
+    return routed
+
+
 async def _async_caller(*events, what='value', changed=None, callback=None, function=None, routed=None):
+    routed = _routed(changed, routed)
     if callback and (routed is None or any(e.name in routed for e in events)):
         callback(*events)
     if not _skip_event or not _skip_event(*events, what=what, changed=changed):
@@ -946,6 +958,7 @@ async def _async_caller(*events, what='value', changed=None, callback=None, func
 def _sync_caller(*events, what='value', changed=None, callback=None, function=None, routed=None):
     # (the dependencies are set up again when a parameter that a dependency
     # path passes through is assigned, not for the final ones)
+    routed = _routed(changed, routed)
     if callback and (routed is None or any(e.name in routed for e in events)):
         callback(*events)
     if not _skip_event(*events, what=what, changed=changed):
@@ -969,8 +982,9 @@ def _m_caller(self, method_name, what='value', changed=None, callback=None, rout
     """
     function = getattr(self, method_name)
     _caller = _async_caller if iscoroutinefunction(function) else _sync_caller
-    caller = partial(_caller, what=what, changed=changed, callback=callback, function=function,
-                     routed=routed)
+    if routed is not None and isinstance(changed, dict):
+        changed['.routed'] = tuple(sorted(routed))
+    caller = partial(_caller, what=what, changed=changed, callback=callback, function=function)
     caller._watcher_name = method_name
     return caller
 
